@@ -9,8 +9,8 @@ same=$(diff -q <(grep -v '^index ' /tmp/seed/$N.cur.diff) <(grep -v '^index ' $O
 ./run_tests.sh > /tmp/seed/$N.tests.log 2>&1; t=$?
 npass=$(grep -c PASSED /tmp/seed/$N.tests.log)
 ( cd $W && timeout 900 bash $O/run_demo.sh $W ) > /tmp/seed/$N.demo_with.log 2>&1; d1=$?
-git stash -q
+git apply -R /tmp/seed/$N.cur.diff || { echo '{"id": "'$N'", "error": "cannot reverse patch"}'; exit 2; }
 cmake --build _build -j8 >/dev/null 2>&1
 ( cd $W && timeout 900 bash $O/run_demo.sh $W ) > /tmp/seed/$N.demo_without.log 2>&1; d2=$?
-git stash pop -q
+git apply /tmp/seed/$N.cur.diff
 echo "{\"id\": \"$N\", \"patch_matches_worktree\": $same, \"tests_rc_with_change\": $t, \"test_binaries_passed\": $npass, \"demo_rc_with_change\": $d1, \"demo_rc_without_change\": $d2}"
